@@ -283,15 +283,15 @@ Lemma Lmap_dev A (g : fper -> A) abar (fs : seq fper) : (forall x, g (dev_fper a
   List.map g [seq dev_fper abar x | x <- fs] = List.map g fs.
 Proof. by move=> E; elim: fs => [|x fs IH] //=; rewrite E IH. Qed.
 
-Lemma dev_likelihood abar b (fs : seq fper) :
+Lemma dev_likelihood abar b vs (fs : seq fper) :
   likelihood b [seq dev_fper abar x | x <- fs] = likelihood b fs
-  /\ contributions [seq dev_fper abar x | x <- fs] = contributions fs.
+  /\ contributions vs [seq dev_fper abar x | x <- fs] = contributions vs fs.
 Proof.
 rewrite /likelihood /contributions.
 rewrite (@Lmap_dev _ (@num_obs M n nw)); last by case.
 rewrite (@Lmap_dev _ (@log_det_F M n nw)); last by case.
 rewrite (@Lmap_dev _ (@pe_Fi_pe M n nw)); last by case.
-by rewrite (@Lmap_dev _ (@contribution M n nw)); last by case.
+by rewrite (@Lmap_dev _ (@contribution M n nw vs)); last by case.
 Qed.
 
 (* C08 thm 4: running the filter and the smoother on (data - steady data), without constants, from
@@ -299,17 +299,17 @@ Qed.
    updated and smoothed states are shifted by abar, predicted observables by Z abar + D, and every
    covariance, gain, prediction error, smoothed shock, the likelihood and its contributions are
    unchanged *)
-Theorem deviation_commutes_run abar a Q ps b : all_steady abar ps ->
+Theorem deviation_commutes_run abar a Q ps b vs : all_steady abar ps ->
   let lev := krun a Q ps in
   let dev := krun (a - abar) Q [seq dev_period abar p | p <- ps] in
   [/\ dev = [seq dev_fper abar x | x <- lev],
       (sback dev).1 = [seq dev_sper abar s | s <- (sback lev).1],
       update_all dev = [seq dev_sper abar s | s <- update_all lev],
       likelihood b dev = likelihood b lev &
-      contributions dev = contributions lev].
+      contributions vs dev = contributions vs lev].
 Proof.
 move=> ss /=; rewrite dev_krun // dev_sback dev_update.
-by have [-> ->] := dev_likelihood abar b (krun a Q ps).
+by have [-> ->] := dev_likelihood abar b vs (krun a Q ps).
 Qed.
 
 
